@@ -36,7 +36,16 @@ type c19Suf struct {
 var c19Sufs = []c19Suf{
 	{"com", "com"}, {"co.uk", "co.uk"}, {"com.au", "com.au"}, {"org", "org"},
 	{"github.io", "io"}, {"blogspot.com", "com"},
+	// Last labels that are in no public-suffix list at all (icann empty): no
+	// ICANN suffix to exclude, so the bare last label is an allowed
+	// sub-domain like any other parent.
+	{"lan", ""}, {"home", ""}, {"internal", ""}, {"corp", ""}, {"intranet", ""},
+	{"localdomain", ""}, {"test", ""}, {"qzx9net", ""}, {"fritzy", ""},
 }
+
+// c19ListedSufs is the number of leading entries of c19Sufs that are in the
+// public-suffix list.
+const c19ListedSufs = 6
 
 // c19Dom is the oracle's analysis of one queried name.
 type c19Dom struct {
@@ -55,8 +64,12 @@ type c19Dom struct {
 	Dis map[string]string
 	// Private tells whether the list's suffix of the name is a private one.
 	Private bool
-	// Bare tells whether the name is a public suffix itself.
+	// Bare tells whether the name is a public suffix itself (or, for last
+	// labels in no list, a single-label name).
 	Bare bool
+	// Unlisted tells that the last label of the name is in no public-suffix
+	// list (the list package reports it as a non-ICANN one-label suffix).
+	Unlisted bool
 	// NLabels is the number of labels of the name.
 	NLabels int
 }
@@ -80,8 +93,11 @@ func c19Analyse(name string) (d c19Dom, ok bool) {
 	labels := strings.Split(lower, ".")
 	total := len(labels)
 	icannLabels := strings.Count(e.icann, ".") + 1
+	if e.icann == "" {
+		icannLabels = 0
+	}
 	d = c19Dom{Name: lower, Dis: map[string]string{}, Private: e.name != e.icann,
-		Bare: lower == e.name, NLabels: total}
+		Bare: lower == e.name, NLabels: total, Unlisted: e.icann == ""}
 	for i := 0; i < total; i++ {
 		s := strings.Join(labels[i:], ".")
 		nl := total - i
@@ -164,11 +180,15 @@ func c19Label(rng *rand.Rand) string {
 // list agree.
 func c19GenName(rng *rand.Rand, rep *verifkit.Report) c19Dom {
 	for {
-		suf := c19Sufs[rng.Intn(len(c19Sufs))]
+		suf := c19Sufs[rng.Intn(c19ListedSufs)]
+		unlisted := rng.Intn(4) == 0
+		if unlisted {
+			suf = c19Sufs[c19ListedSufs+rng.Intn(len(c19Sufs)-c19ListedSufs)]
+		}
 		sufLabels := strings.Count(suf.name, ".") + 1
 		var k int
 		switch r := rng.Intn(100); {
-		case r < 3:
+		case r < 3 || unlisted && r < 12:
 			k = 0
 		case r < 25:
 			k = 1
@@ -982,7 +1002,12 @@ func c19RunHistory(rep *verifkit.Report, rng *rand.Rand, pool *c19Pool, selfColl
 		nontrivial := want != "clean" || sharing > 0 || disIn != "" || revisit
 		rep.Eval(nontrivial, fmt.Sprintf("%s|%v|%v|%d|%s|%d|%s", d.Name, db.Names, revisit, nth, want, cacheSize, cacheTime))
 		rep.Class(fmt.Sprintf("labels:%d", d.NLabels))
-		if d.Private {
+		if d.Unlisted {
+			rep.Class("suffix:last-label-in-no-list")
+			if d.NLabels == 1 {
+				rep.Class("single_label_name_in_no_list")
+			}
+		} else if d.Private {
 			rep.Class("suffix:private")
 		} else {
 			rep.Class("suffix:icann")
@@ -1039,6 +1064,15 @@ func c19RunHistory(rep *verifkit.Report, rng *rand.Rand, pool *c19Pool, selfColl
 				}
 				if got && by != d.Name {
 					rep.Event("blocked_because_of_a_parent_domain")
+				}
+				if d.Unlisted {
+					rep.Event("correct_verdicts_of_names_whose_last_label_is_in_no_list:" + gotS)
+					if got && !strings.Contains(by, ".") {
+						rep.Event("blocked_by_listed_bare_last_label_in_no_list")
+					}
+					if got && d.NLabels == 1 {
+						rep.Event("blocked_single_label_names")
+					}
 				}
 				if selfCollides {
 					rep.Event("correct_verdicts_of_names_colliding_with_own_ancestor:" + gotS)
@@ -1105,6 +1139,9 @@ func c19RunHistory(rep *verifkit.Report, rng *rand.Rand, pool *c19Pool, selfColl
 			if selfCollides {
 				detail += ":name-shares-prefix-with-own-ancestor"
 			}
+			if d.Unlisted {
+				detail += ":last-label-in-no-list"
+			}
 			rep.Violate(fmt.Sprintf("verdict:want-%s-got-%s:%s:%s%s", want, gotS, how, cc, detail),
 				fmt.Sprintf("Check(%q) = %s, but a fresh lookup in the service database gives %s (step %d of the history, %s)",
 					d.Name, gotS, want, len(trace), source),
@@ -1164,6 +1201,8 @@ func TestVerifC19(t *testing.T) {
 		"database_replaced_after_full_expiry", "verdict_follows_replaced_database_after_expiry",
 		"malformed_txt_strings_served", "blocked_because_of_a_parent_domain",
 		"blocked_after_lookup_by_listed_ancestor_whose_prefix_equals_that_of_a_longer_subdomain",
+		"blocked_by_listed_bare_last_label_in_no_list", "blocked_single_label_names",
+		"correct_verdicts_of_names_whose_last_label_is_in_no_list:clean",
 		"correct_verdicts_of_names_colliding_with_own_ancestor:clean",
 		"checks_during_service_failure:error",
 		"blocked_verdicts_after_recovery_for_prefixes_of_a_failed_request",
